@@ -177,6 +177,9 @@ func runLimitCases(r *gen.Rand, n int) {
 			s.Cols = append(s.Cols, gen.Pick(r, []string{"int", "float"}))
 		}
 		s.Rows, s.Tags = genPlainRows(r, ncol, r.Range(1, 9), s.Desc)
+		if tooManyTimeouts() {
+			return
+		}
 		total := len(s.Rows)
 		lo, hi := s.Offset, s.Offset+s.Limit
 		if lo > total {
